@@ -85,6 +85,8 @@ class World:
     def nucleate(self) -> bool:
         for _ in range(20):
             r = q(self.rng.uniform(0.5, 4.0))
+            if not self.small_motion and self.rng.random() < 0.06:
+                r = 0.0  # a vanished droplet is still a droplet of the time course
             pos = self._rand_pos(r)
             if self._free(pos, r):
                 self.drops.append({"id": self.next_id, "pos": pos, "r": r,
